@@ -1839,6 +1839,15 @@ let m_unwrap1 o = match o with
                  | _ :: _ -> o))
 | _ -> o
 
+(** val run_segs :
+    (seg -> node list -> node list result) -> seg list -> node list -> node
+    list result **)
+
+let rec run_segs f q ns =
+  match q with
+  | [] -> Ok ns
+  | sg :: q' -> bind (f sg ns) (fun ns' -> run_segs f q' ns')
+
 (** val m_seg : envcfg -> json -> seg -> node list -> node list result **)
 
 let m_seg cfg =
@@ -1945,11 +1954,8 @@ let m_seg cfg =
 (** val m_segs :
     envcfg -> json -> seg list -> node list -> node list result **)
 
-let rec m_segs cfg root q ns =
-  match q with
-  | [] -> Ok ns
-  | sg :: q' ->
-    bind (m_seg cfg root sg ns) (fun ns' -> m_segs cfg root q' ns')
+let m_segs cfg root q ns =
+  run_segs (m_seg cfg root) q ns
 
 (** val m_find : envcfg -> query -> json -> node list result **)
 
@@ -2270,6 +2276,14 @@ let fn_sem rx0 d args =
                | [] -> SV Nothing
                | a :: _ -> a)
 
+(** val run_segs_s :
+    (seg -> node list -> node list) -> seg list -> node list -> node list **)
+
+let rec run_segs_s f q ns =
+  match q with
+  | [] -> ns
+  | sg :: q' -> run_segs_s f q' (f sg ns)
+
 (** val s_seg :
     registry -> (bool -> str -> str -> bool) -> json -> seg -> node list ->
     node list **)
@@ -2362,10 +2376,8 @@ let s_seg rg rx0 =
     registry -> (bool -> str -> str -> bool) -> json -> seg list -> node list
     -> node list **)
 
-let rec s_segs rg rx0 root q ns =
-  match q with
-  | [] -> ns
-  | sg :: q' -> s_segs rg rx0 root q' (s_seg rg rx0 root sg ns)
+let s_segs rg rx0 root q ns =
+  run_segs_s (s_seg rg rx0 root) q ns
 
 (** val sem :
     registry -> (bool -> str -> str -> bool) -> query -> json -> node list **)
